@@ -32,6 +32,7 @@ type LoopSpec struct {
 type GhostAt struct {
 	Ordinal int    // call ordinal among calls to Callee (source order)
 	Callee  string // suffix match on callee key; "send" for channel sends; "return" for returns
+	Anchor  string // call | send | recv | return | entry
 	When    string // "before" or "after"
 	Kind    string // "assert", "assume", "set"
 	Target  string // for set: ghost location text
@@ -460,7 +461,7 @@ func (cs *Contracts) loadContractFile(path, pkgPath string, imports map[string]s
 			if m[2] == "all" {
 				n = -1
 			}
-			g := &GhostAt{Ordinal: n, Callee: m[3], When: m[4], Kind: m[5]}
+			g := &GhostAt{Ordinal: n, Callee: m[3], When: m[4], Kind: m[5], Anchor: m[1]}
 			if m[1] != "call" {
 				g.Callee = m[1]
 			}
